@@ -37,7 +37,69 @@ def make(term):
         return CopelandMethod()
     if k == "pickaperm":
         return PickAPerm()
+    if k == "factory":
+        # the selector of algorithm_choice.py: ["factory", enum value, parameter kind, parameter value]
+        from corankco.algorithms.algorithm_choice import get_algorithm, Algorithm
+        return get_algorithm(Algorithm(term[1]), factory_params(term))
     raise ValueError(term)
+
+
+def factory_params(term):
+    kind, val = term[2], term[3]
+    if kind == "none":
+        return None
+    if kind == "empty":
+        return {}
+    if kind == "starters":
+        return {"starting_algorithms": [make(t) for t in val]}
+    if kind == "aux":
+        return {"auxiliary_algorithm": make(val)}
+    if kind == "bound":
+        return {"bound_for_exact": val}
+    if kind == "optimize":
+        return {"optimize": bool(val)}
+    if kind == "bid":
+        return {"use_bucket_id": bool(val)}
+    raise ValueError(term)
+
+
+FACTORY_NAMES = ["EXACT", "PARCONS", "BIOCONSERT", "BIOCO", "KWIKSORTRANDOM", "PICKAPERM", "BORDACOUNT", "COPELANDMETHOD"]
+
+
+def gen_factory(rng):
+    """a call of the selector: enum member + parameters its named class accepts"""
+    v = rng.randrange(8)
+    kinds = {0: ["optimize"], 1: ["aux", "bound"], 2: ["starters"], 6: ["bid"]}.get(v, [])
+    kind = rng.choice(["none", "none", "empty"] + kinds + kinds)
+    if kind == "starters":
+        val = [list(rng.choice(BASE)) for _ in range(rng.choice([0, 1, 2]))]
+    elif kind == "aux":
+        val = list(rng.choice(BASE[3:] + [["bioconsert", []]]))
+    elif kind == "bound":
+        val = rng.choice([0, 2, 80])
+    elif kind in ("optimize", "bid"):
+        val = rng.choice([0, 1])
+    else:
+        val = None
+    return ["factory", v, kind, val]
+
+
+def term_of_instance(alg):
+    """the model's configuration term of an algorithm OBJECT (read from the instance, not from how it was asked for)"""
+    from corankco.algorithms.bioconsert.bioco import BioCo
+    from corankco.algorithms.bioconsert.bioconsert import BioConsert
+    from corankco.algorithms.parcons.parcons import ParCons
+    cname = type(alg).__name__
+    if isinstance(alg, BioCo):
+        return [5]
+    if isinstance(alg, BioConsert):
+        return [6, [term_of_instance(a) for a in alg._starting_algorithms]]
+    if isinstance(alg, ParCons):
+        return [7, term_of_instance(alg._auxiliary_alg)]
+    table = {"ExactAlgorithm": [0], "ExactAlgorithmPulp": [0], "ExactAlgorithmCplex": [0],
+             "ExactAlgorithmCplexForPaperOptim1": [0], "KwikSortRandom": [1], "CopelandMethod": [2], "BordaCount": [3],
+             "PickAPerm": [4]}
+    return list(table[cname])
 
 
 def model_term(term):
@@ -58,11 +120,20 @@ def model_term(term):
         return [6, [model_term(t) for t in term[1]]]
     if k == "parcons":
         return [7, model_term(term[1])]
+    if k == "factory":
+        kind, val = term[2], term[3]
+        if kind == "starters":
+            return [8, term[1], [[model_term(t) for t in val]]]
+        if kind == "aux":
+            return [8, term[1], [model_term(val)]]
+        return [8, term[1], []]
     raise ValueError(term)
 
 
 def needs_cplex(term):
     k = term[0]
+    if k == "factory":
+        return False
     if k in ("cplex", "paper"):
         return True
     if k == "parcons":
@@ -74,6 +145,8 @@ def needs_cplex(term):
 
 def uses_solver(term):
     k = term[0]
+    if k == "factory":
+        return term[1] in (0, 1) or (term[2] == "starters" and any(uses_solver(t) for t in term[3]))
     if k in ("exact", "pulp", "cplex", "paper", "parcons"):
         return True
     if k == "bioconsert":
@@ -83,6 +156,8 @@ def uses_solver(term):
 
 def name(term):
     k = term[0]
+    if k == "factory":
+        return "factory:%s:%s" % (FACTORY_NAMES[term[1]], term[2])
     if k == "bioconsert":
         return "bioconsert[" + ",".join(name(t) for t in term[1]) + "]"
     if k == "parcons":
